@@ -562,3 +562,263 @@ def _split_top(s, ch):
 
 def calls_of(text, name, base_line=1):
     return [c for c in commands(text, base_line) if c.name == name]
+
+
+# ---------------------------------------------------------------------------------------------------
+# Structure: if/loops/case/and-or over the flat command list, and an effect-count analysis on it
+# ---------------------------------------------------------------------------------------------------
+_OPEN_KW = {"if", "for", "while", "until", "case", "{", "select"}
+
+
+def _outer_cases(text):
+    """Outermost case blocks with their character spans: [(start, end, Case)]."""
+    spans = []
+    for m in _CASE_RE.finditer(text):
+        ls = text.rfind("\n", 0, m.start()) + 1
+        pre = text[ls:m.start()]
+        if re.search(r"(^|\s)#", pre):
+            continue
+        if spans and m.start() < spans[-1][1]:
+            continue
+        try:
+            arms, endpos = _parse_arms(text, m.end(), 1)
+        except AnalysisError:
+            continue
+        spans.append((m.start(), endpos, Case(m.group(1).strip(), arms, 1 + text.count("\n", 0, m.start()))))
+    return spans
+
+
+def structure(text, base_line=1):
+    """Parse a bash block into a tree:
+        ("seq", [node...]) | ("cmd", Command) | ("if", [(cond_seq, body_seq)...], else_seq|None)
+        ("loop", kind, head_seq, body_seq) | ("case", Case, [(patterns, body_seq)...]) | ("andor", left, op, right) | ("group", seq)"""
+    spans = _outer_cases(text)
+    cases = {}
+    out = []
+    last = 0
+    for i, (a, b, c) in enumerate(spans):
+        out.append(text[last:a])
+        # keep line numbering: placeholder followed by the same number of newlines
+        out.append(f"__CASE_{i}__" + "\n" * text.count("\n", a, b))
+        c.line = base_line + text.count("\n", 0, a)
+        cases[f"__CASE_{i}__"] = (c, base_line + text.count("\n", 0, a))
+        last = b
+    out.append(text[last:])
+    cmds = commands("".join(out), base_line)
+    # split leading keywords that carry a command on the same line: "then cmd", "do cmd", "else cmd", "{ cmd"
+    flat = []
+    for c in cmds:
+        while c.words and c.words[0] in ("then", "do", "else", "{", "!", "time") and len(c.words) > 1 and not c.assigns:
+            flat.append(Command([c.words[0]], c.line, c.sep_before, c.raw))
+            c = Command(c.words[1:], c.line, ";", c.raw)
+        flat.append(c)
+    pos = [0]
+
+    def peek():
+        return flat[pos[0]] if pos[0] < len(flat) else None
+
+    def take():
+        if pos[0] >= len(flat):
+            raise AnalysisError("bash structure: unexpected end of block (unmatched keyword)")
+        c = flat[pos[0]]
+        pos[0] += 1
+        return c
+
+    def parse_seq(until):
+        nodes = []
+        while True:
+            c = peek()
+            if c is None or (c.name in until and not c.assigns):
+                return ("seq", nodes)
+            nodes.append(parse_one())
+
+    def parse_one():
+        c = take()
+        sep = c.sep_before
+        n = c.name
+        if n == "if" and not c.assigns:
+            pos[0] -= 1
+            flat[pos[0]] = Command(c.words[1:], c.line, ";", c.raw) if len(c.words) > 1 else None
+            if flat[pos[0]] is None:
+                pos[0] += 1
+            branches = []
+            cond = parse_seq({"then"})
+            take()
+            body = parse_seq({"elif", "else", "fi"})
+            branches.append((cond, body))
+            els = None
+            while True:
+                k = take()
+                if k.name == "elif":
+                    if len(k.words) > 1:
+                        pos[0] -= 1
+                        flat[pos[0]] = Command(k.words[1:], k.line, ";", k.raw)
+                    cond = parse_seq({"then"})
+                    take()
+                    body = parse_seq({"elif", "else", "fi"})
+                    branches.append((cond, body))
+                elif k.name == "else":
+                    els = parse_seq({"fi"})
+                else:
+                    break
+            node = ("if", branches, els)
+        elif n in ("for", "while", "until", "select") and not c.assigns:
+            if n != "for" and len(c.words) > 1:
+                pos[0] -= 1
+                flat[pos[0]] = Command(c.words[1:], c.line, ";", c.raw)
+                head = parse_seq({"do"})
+            else:
+                head = ("seq", [("cmd", c, ";")])
+                if peek() is not None and peek().name != "do":
+                    head = ("seq", head[1] + parse_seq({"do"})[1])
+            take()
+            body = parse_seq({"done"})
+            d = take() if peek() is not None else None
+            node = ("loop", n, head, body)
+        elif n == "{" and not c.assigns and len(c.words) == 1:
+            body = parse_seq({"}"})
+            if peek() is not None:
+                take()
+            node = ("group", body)
+        elif n in cases:
+            cs, ln = cases[n]
+            arms = [(a.patterns, structure(a.body, a.line)) for a in cs.arms]
+            node = ("case", cs, arms)
+        else:
+            node = ("cmd", c)
+        return _chain(node, sep)
+
+    def _chain(node, sep):
+        return node + (sep,)
+
+    # build with explicit and/or folding
+    def fold(seq):
+        kind, nodes = seq
+        out_nodes = []
+        for nd in nodes:
+            sep = nd[-1]
+            core = nd[:-1]
+            core = _fold_children(core)
+            if sep in ("&&", "||") and out_nodes:
+                out_nodes[-1] = ("andor", out_nodes[-1], sep, core)
+            else:
+                out_nodes.append(core)
+        return ("seq", out_nodes)
+
+    def _fold_children(core):
+        k = core[0]
+        if k == "if":
+            return ("if", [(fold(c_), fold(b_)) for c_, b_ in core[1]], fold(core[2]) if core[2] is not None else None)
+        if k == "loop":
+            return ("loop", core[1], fold(core[2]), fold(core[3]))
+        if k == "group":
+            return ("group", fold(core[1]))
+        return core
+
+    return fold(parse_seq(set()))
+
+
+def effect_paths(tree, is_effect, terminal=("exit", "die", "return"), cap=3):
+    """Set of (count, outcome) over the paths of ``tree``: outcome in fall|break|continue|exit.
+    ``is_effect(Command) -> int`` counts the effect of a simple command (e.g. 1 for a reply write)."""
+
+    def go(node):
+        k = node[0]
+        if k == "seq":
+            states = {(0, "fall")}
+            for ch in node[1]:
+                nxt = set()
+                sub = None
+                for n_, o in states:
+                    if o != "fall":
+                        nxt.add((n_, o))
+                        continue
+                    if sub is None:
+                        sub = go(ch)
+                    for m, o2 in sub:
+                        nxt.add((min(cap, n_ + m), o2))
+                states = nxt
+            return states
+        if k == "cmd":
+            c = node[1]
+            if c.name in terminal:
+                return {(0, "exit")}
+            if c.name == "break":
+                return {(0, "break")}
+            if c.name == "continue":
+                return {(0, "continue")}
+            return {(min(cap, is_effect(c)), "fall")}
+        if k == "group":
+            return go(node[1])
+        if k == "if":
+            res = set()
+            pre = {(0, "fall")}
+            for cond, body in node[1]:
+                cs = go(cond)
+                new_pre = set()
+                for n0, o0 in pre:
+                    for n1, o1 in cs:
+                        if o0 != "fall":
+                            res.add((n0, o0))
+                        elif o1 != "fall":
+                            res.add((min(cap, n0 + n1), o1))
+                        else:
+                            for n2, o2 in go(body):
+                                res.add((min(cap, n0 + n1 + n2), o2))
+                            new_pre.add((min(cap, n0 + n1), "fall"))
+                pre = new_pre
+            if node[2] is not None:
+                for n0, o0 in pre:
+                    for n2, o2 in go(node[2]):
+                        res.add((min(cap, n0 + n2), o2))
+            else:
+                res |= pre
+            return res
+        if k == "loop":
+            head, body = go(node[2]), go(node[3])
+            res = set()
+            states = {(0, "fall")}
+            for _ in range(cap + 1):
+                nxt = set()
+                for n0, o0 in states:
+                    for n1, o1 in head:
+                        if o1 != "fall":
+                            res.add((min(cap, n0 + n1), o1))
+                            continue
+                        res.add((min(cap, n0 + n1), "fall"))  # condition false / items exhausted
+                        for n2, o2 in body:
+                            t = min(cap, n0 + n1 + n2)
+                            if o2 in ("fall", "continue"):
+                                nxt.add((t, "fall"))
+                            elif o2 == "break":
+                                res.add((t, "fall"))
+                            else:
+                                res.add((t, o2))
+                if nxt <= states:
+                    break
+                states = nxt | states
+            return res
+        if k == "case":
+            res = set()
+            has_default = False
+            for pats, body in node[2]:
+                if "*" in pats:
+                    has_default = True
+                res |= go(body)
+            if not has_default:
+                res.add((0, "fall"))
+            return res
+        if k == "andor":
+            left, right = go(node[1]), go(node[3])
+            res = set()
+            for n0, o0 in left:
+                if o0 != "fall":
+                    res.add((n0, o0))
+                    continue
+                res.add((n0, "fall"))
+                for n1, o1 in right:
+                    res.add((min(cap, n0 + n1), o1))
+            return res
+        raise AnalysisError(f"bash structure: unknown node {k}")
+
+    return go(tree)
